@@ -153,6 +153,31 @@ def _c17_worker(case):
     finally:
         signal.alarm(0)
 
+def _enc_names(names):
+    return ";".join((",".join(str(ord(c)) for c in x) or "~") for x in names) or "-"
+
+def _dec_names(s):
+    return [] if s == "-" else [("" if x == "~" else "".join(chr(int(c)) for c in x.split(","))) for x in s.split(";")]
+
+_SAN_ALPHABET = ["a", "b", "x", "1", "_", "_", "{", "}", "[", "]", " ", "-", ".", "\n", "\u00e9", "\u20ac", "Z", "0"]
+
+def _weird_names(rng, n):
+    """names that need sanitising, collide after sanitising, are empty, end in a newline, are non-ASCII ..."""
+    out = []
+    for i in range(n):
+        r = rng.random()
+        if r < 0.25 and out:                      # collide with an earlier name after substitution / prefixing
+            base = rng.choice(out)
+            name = rng.choice(["_" * rng.randint(0, 2) + re.sub("[^a-zA-Z0-9_]", rng.choice(["_", "{", "-"]), base), base + rng.choice(["", "\n", "}"])])
+        elif r < 0.33:
+            name = rng.choice(["", "_", "__", "\n", "a\n", "a_", "a{", "_a_"])
+        else:
+            name = "".join(rng.choice(_SAN_ALPHABET) for _ in range(rng.randint(1, 4)))
+        if name in ("0", "1", "true", "false"):   # constants of AEON's expression syntax: BooleanNetwork.drop() turns
+            name = "x" + name                      # such a variable into a constant (AEON behaviour, outside C17)
+        out.append(name)
+    return out
+
 def _sanitize_worker(case):
     try:
         rng = random.Random(case["seed"])
@@ -160,32 +185,49 @@ def _sanitize_worker(case):
         n = bn.variable_count()
         before = tables_of(SuccessionDiagram(bn))
         weird = []
-        for i, v in enumerate(bn.variables()):
-            base = rng.choice(["g", "x", "c", "k_"]) + rng.choice(["", "1", "_a"])
-            name = base + "".join(rng.choice("[]{}_") for _ in range(rng.randint(0, 2))) + (str(i) if rng.random() < 0.5 else "")
-            k = 0
-            while name in weird:
-                name += rng.choice("[]{}_"); k += 1
-            weird.append(name)
+        for v, name in zip(bn.variables(), case.get("names") or _weird_names(rng, n)):
             try:
                 bn.set_variable_name(v, name)
-            except Exception:
-                weird[-1] = bn.get_variable_name(v)
+            except Exception:                     # AEON refuses duplicates: keep the original name
+                pass
+        weird = bn.variable_names()
         msgs = []
+        m = Model(1, ["01"])
+        m.add("sanitize " + _enc_names(weird)); m.add("checkonly " + _enc_names(weird))
+        mo = m.run()
+        expected = None if mo[0] == "none" else _dec_names(mo[0])
         try:
             s = sanitize_network_names(bn)
         except Exception as e:
-            return {"case": case, "msgs": [], "n": n, "names": weird, "raised": type(e).__name__, "error": None}
+            return {"case": case, "msgs": [("sanitize", f"sanitize_network_names raised {type(e).__name__} on {weird!r}")], "n": n, "names": weird, "raised": type(e).__name__, "error": None}
         names = s.variable_names()
+        if names != expected:
+            msgs.append(("sanitize-model", f"sanitised names {names!r} differ from the model's {expected!r} for {weird!r}"))
         if len(set(names)) != len(names):
-            msgs.append(("sanitize", f"sanitised names are not distinct: {names}"))
-        if not all(re.match("^[a-zA-Z0-9_]+$", x) for x in names):
-            msgs.append(("sanitize", f"a sanitised name is not solver-safe: {names}"))
-        after = tables_of(SuccessionDiagram(s))
-        if after != before:
-            msgs.append(("sanitize", f"sanitisation changed the dynamics ({weird} -> {names})"))
-        return {"case": case, "msgs": msgs, "n": n, "names": weird, "error": None}
-    except Exception:
+            msgs.append(("sanitize", f"sanitised names are not distinct: {names!r}"))
+        if not all(re.fullmatch("[a-zA-Z0-9_]+", x) for x in names):
+            msgs.append(("sanitize", f"a sanitised name is not solver-safe: {names!r} (from {weird!r})"))
+        try:
+            sanitize_network_names(bn, check_only=True); chk = "true"
+        except RuntimeError:
+            chk = "false"
+        if chk != mo[1]:
+            msgs.append(("sanitize", f"check_only accepts={chk}, model says {mo[1]} for {weird!r}"))
+        try:
+            after = tables_of(SuccessionDiagram(s))
+            if after != before:
+                msgs.append(("sanitize", f"sanitisation changed the dynamics ({weird!r} -> {names!r})"))
+            sd2 = SuccessionDiagram(s); sd2.build()
+        except (KeyboardInterrupt, P.CaseTimeout):
+            raise
+        except BaseException as e:            # AEON panics are BaseExceptions
+            msgs.append(("sanitize", f"the sanitised network is not usable: {type(e).__name__} {str(e)[:80]} ({weird!r} -> {names!r})"))
+        msgs.sort(key=lambda x: x[0] == "sanitize-model")     # failing inputs first
+        return {"case": case, "msgs": msgs, "n": n, "names": weird, "error": None,
+                "renamed": sum(1 for a, b in zip(weird, names) if a != b), "clash": sum(1 for a, b in zip(weird, names) if b.startswith("_") and not re.sub("[^a-zA-Z0-9_]", "_", a).startswith("_") or len(b) > len(a))}
+    except (KeyboardInterrupt, P.CaseTimeout):
+        raise
+    except BaseException:
         return {"case": case, "error": traceback.format_exc()}
 
 @register("C17")
@@ -197,7 +239,10 @@ def run_C17(tier, seed):
         cases.append({"rules": rules, "seed": rng.randrange(10**9), "strategy": rng.choice(["bfs", "bfs", "build", "block", "aseeds"]),
                       "transforms": rng.sample(["rename", "flip", "equiv", "aeon", "sbml"], 3)})
     ws = pmap(_c17_worker, cases)
-    scases = [{"rules": gen_network(rng, 2, 6), "seed": rng.randrange(10**9)} for _ in range(_sizes(tier, 150, 2000))]
+    three = "a, b\nb, a\nc, a"
+    scases = [{"rules": three, "seed": 1, "names": nm} for nm in
+              (["a\n", "b", "c"], ["", "_", "__"], ["a{", "a_", "_a_"], ["a}", "a{", "a]"], ["\n", "\n\n", "_"], ["\u00e9", "_", "x y"], ["b1_a", "b0_a", "a"])]
+    scases += [{"rules": gen_network(rng, 2, 6), "seed": rng.randrange(10**9)} for _ in range(_sizes(tier, 150, 2000))]
     ss = pmap(_sanitize_worker, scases)
     viol = harness_errors(ws, "C17")
     for w in ws + ss:
@@ -206,11 +251,12 @@ def run_C17(tier, seed):
                 viol.append(error_violation("C17", w))
             continue
         for sig, msg in w["msgs"][:1]:
-            viol.append({"property": "C17", "signature": "C17:" + sig, "what": msg, "case": w["case"], "failing_input": True})
+            viol.append({"property": "C17", "signature": "C17:" + sig, "what": msg, "case": w["case"], "failing_input": sig != "sanitize-model"})
     good = [w for w in ws if not w.get("error") and not w.get("timeout")]
     return {"evaluations": len(cases) * 3 + len(scases), "distinct_nontrivial": len({case_hash(w["case"]) for w in good if w["nodes"] > 2}),
             "rule": "metamorphic pairs on the real code: random renaming + reordering of declarations, polarity flip of a random subset of variables (x := !n_x everywhere), replacement of every update function by an equivalent formula (full DNF or double negation), round trips through aeon and sbml text; the full BFS diagram (node spaces, edges, motif lists), minimal trap spaces and the set of attractors identified by the seeds (mapped to brute-force attractors of the original) must coincide through the transformation; plus sanitize_network_names on networks renamed with brackets/braces/underscores incl. names colliding after sanitising (distinct, solver-safe, same truth tables); non-trivial = more than 2 nodes",
-            "samples": [w["case"] for w in good[:3]], "violations": viol, "extra": {"sanitize_cases": len(scases), "sanitize_raised": sum(1 for w in ss if w.get("raised"))}}
+            "samples": [w["case"] for w in good[:3]], "violations": viol, "extra": {"sanitize_cases": len(scases), "sanitize_raised": sum(1 for w in ss if w.get("raised")),
+                      "sanitize_names_renamed": sum(w.get("renamed", 0) for w in ss), "sanitize_names_with_clash_prefix": sum(w.get("clash", 0) for w in ss)}}
 
 # ---------------------------------------------------------------- C18
 def _c18_worker(case):
